@@ -260,6 +260,22 @@ func (E *Engine) doCall(st *State, in ssa.Instruction, cc *ssa.CallCommon, res s
 	} else if f, ok := E.Funcs[key]; ok {
 		callee = f
 	}
+	if _, plainCall := in.(*ssa.Call); plainCall && spec == nil && callee != nil && len(st.frames) < maxInlineDepth && E.inlinable(callee) {
+		for _, fr := range st.frames {
+			if fr.fn == callee {
+				callee = nil // recursion
+				break
+			}
+		}
+		if callee != nil {
+			ia := args
+			if fnv.Fn.Recv != nil {
+				ia = append([]*Val{fnv.Fn.Recv}, args...)
+			}
+			E.inlineCall(st, in, callee, ia, fnv.Fn.Bindings, res)
+			return []*State{}
+		}
+	}
 	if spec == nil {
 		E.note("no contract for callee %s: havoc call", key)
 		E.havocAll(st, "call "+key)
@@ -713,6 +729,10 @@ func (E *Engine) havocMod(st *State, mi *modItem) {
 
 func (E *Engine) doReturn(st *State, in *ssa.Return) {
 	c := E.cur
+	if len(st.frames) > 0 {
+		E.inlineReturn(st, in)
+		return
+	}
 	if E.dry > 0 {
 		return
 	}
